@@ -200,3 +200,36 @@ def the_struct(node) -> dict:
     if node['tag'] != 24 or len(node['data']) != 1:
         raise FormatError(f'object at offset {node["at"]} is not a single struct')
     return node['data'][0]
+
+
+# (serial name, version) of every serialised class of the documented layout (Horace 4.0): a file that carries another version number
+# decodes structurally but is a different format for every other reader
+STRUCT_VERSIONS = {
+    'main_header_cl': 2.0, 'line_axes': 7.0, 'line_proj': 7.0, 'dnd_metadata': 1.0, 'pix_metadata': 1.0, 'IX_source': 2.0, 'IX_null_inst': 2.0,
+    'IX_sample': 3.0, 'IX_experiment': 3.0, 'unique_references_container': 1.0, 'unique_objects_container': 1.0,
+}
+
+
+def version_problems(node, out=None) -> list:
+    """Every struct that names its class carries the version of the documented layout."""
+    out = [] if out is None else out
+    if isinstance(node, dict) and 'tag' in node:
+        if node['tag'] == 24:
+            for st in node['data']:
+                if 'serial_name' in st and 'version' in st:
+                    try:
+                        name, ver = scalar(st['serial_name']), scalar(st['version'])
+                    except FormatError as ex:
+                        out.append(str(ex))
+                        name = None
+                    if name is not None:
+                        if name not in STRUCT_VERSIONS:
+                            out.append(f'struct of unknown class {name!r} at offset {node["at"]}')
+                        elif not isinstance(ver, int | float) or float(ver) != STRUCT_VERSIONS[name]:
+                            out.append(f'{name} written with version {ver!r}, the documented layout is version {STRUCT_VERSIONS[name]}')
+                for v in st.values():
+                    version_problems(v, out)
+        elif node['tag'] == 23:
+            for v in node['data']:
+                version_problems(v, out)
+    return out
